@@ -156,7 +156,7 @@ func c20Arith(d ref.DT, e tensor.Engine, op string, shape []int, la, lb, mode st
 	var D *tensor.Dense
 	var rootD interface{}
 	var opts []tensor.FuncOpt
-	needD := mode == "reuse" || mode == "incr" || strings.HasPrefix(mode, "reuse:") || strings.HasPrefix(mode, "incr:") || op == "FMA" || op == "FMAScalar"
+	needD := mode == "reuse" || mode == "incr" || mode == "unsafe+reuse" || mode == "unsafe+incr" || strings.HasPrefix(mode, "reuse:") || strings.HasPrefix(mode, "incr:") || op == "FMA" || op == "FMAScalar"
 	_ = needD
 	if needD {
 		dl := "C"
@@ -206,6 +206,14 @@ func c20Arith(d ref.DT, e tensor.Engine, op string, shape []int, la, lb, mode st
 		}
 	}
 	switch {
+	case mode == "unsafe+reuse" || mode == "unsafe+incr":
+		// two options given together: which one wins is the default engine's decision, the others follow it
+		opts = append(opts, tensor.UseUnsafe())
+		if mode == "unsafe+reuse" {
+			opts = append(opts, tensor.WithReuse(D))
+		} else {
+			opts = append(opts, tensor.WithIncr(D))
+		}
 	case mode == "unsafe":
 		opts = append(opts, tensor.UseUnsafe())
 	case mode == "reuse=a":
@@ -478,7 +486,7 @@ func runC20(r *core.Run) {
 				}
 				laysF := append(append([]string{}, lays...), "F")
 				for _, op := range []string{"Add", "Sub", "Mul", "Div", "FMA", "FMAScalar"} {
-					dmodes := []string{"reuse=a", "reuse=b", "reuse=av", "reuse=bv", "mismatch", "reuse:rs", "incr:rs", "reuse:F", "incr:F", "reuse:M", "incr:M"}
+					dmodes := []string{"reuse=a", "reuse=b", "reuse=av", "reuse=bv", "mismatch", "reuse:rs", "incr:rs", "reuse:F", "incr:F", "reuse:M", "incr:M", "unsafe+reuse", "unsafe+incr"}
 					if op == "FMA" {
 						dmodes = []string{"fma:xrs", "fma:yrs", "fma:F", "fma", "fma:M"}
 					}
